@@ -17,6 +17,7 @@ import (
 	"github.com/gcash/bchutil"
 	"github.com/gcash/bchutil/base58"
 
+	al "verif/harness/cmd/c01/addrlib"
 	"verif/harness/internal/vh"
 )
 
@@ -220,7 +221,7 @@ func decodeStr(s string, family string, corr bool) {
 		rep.Violate("C06:panic", "DecodeWIF panicked", replay)
 		return
 	}
-	d := base58.Decode(s)
+	d := al.RefBase58Decode(s) // byte-wise table semantics, independent of the implementation
 	replay["decoded"] = vh.Hex(d)
 	// the property's acceptance predicate, independently
 	lenOK := len(d) == 37 || (len(d) == 38 && d[33] == 0x01)
@@ -501,6 +502,113 @@ func main() {
 		}
 		decodeStr(string(s), "string_damage", !cfg.Search && i < 40)
 	}
+	// white space / control characters around a valid string: Base58 has none of them, so the string must be
+	// refused (a DecodeWIF that trims its input would accept a string that does not re-encode to itself)
+	for i, v := range valid {
+		if i >= 4 {
+			break
+		}
+		for j, w := range []string{" ", "\n", "\t", "\r\n", "\x00", "\x0b", "\xa0"} {
+			decodeStr(w+v, "whitespace", !cfg.Search && (i == 0 || j < 2))
+			decodeStr(v+w, "whitespace", !cfg.Search && (i == 0 || j < 2))
+			decodeStr(w+v+w, "whitespace", !cfg.Search && i == 0 && j < 3)
+		}
+	}
+	// one character of a valid string replaced by a multi-byte code point with the same low eight bits (a Base58
+	// decoder that walks the string by code point and narrows to a byte reads the original character)
+	for i, v := range valid {
+		if i >= 4 {
+			break
+		}
+		for _, pos := range []int{0, 1, len(v) / 2, len(v) - 1} {
+			for k, alias := range al.RuneAliases(v, pos) {
+				decodeStr(alias, "rune_alias", !cfg.Search && i < 2 && k < 2)
+			}
+		}
+	}
+
+	// two DIFFERENT valid strings whose four checksum bytes are equal (birthday search over the keys: about
+	// sqrt(2^32) of them): decoded one after the other, each must give its own key
+	r = rng.Fork("cks-collision")
+	{
+		type ent struct {
+			key      []byte
+			compress bool
+			net      byte
+		}
+		seen := map[uint32]ent{}
+		found := 0
+		for tries := 0; tries < 600000 && found < cfg.Scale(3, 8); tries++ {
+			e := ent{key: r.Bytes(32), compress: tries%2 == 0, net: nets[tries%3].PrivateKeyID}
+			e.key[0] &= 0x7f
+			body := append([]byte{e.net}, e.key...)
+			if e.compress {
+				body = append(body, 1)
+			}
+			ck := sha256d(body)
+			tag := uint32(ck[0])<<24 | uint32(ck[1])<<16 | uint32(ck[2])<<8 | uint32(ck[3])
+			if o, ok := seen[tag]; ok && !bytes.Equal(o.key, e.key) {
+				found++
+				for _, order := range [][2]ent{{o, e}, {e, o}} {
+					for _, x := range order {
+						s := encodeKey(x.key, &chaincfg.Params{PrivateKeyID: x.net}, x.compress, false)
+						decodeStr(s, "equal_checksum_pair", !cfg.Search && found == 1)
+						if w, err := bchutil.DecodeWIF(s); err != nil || !bytes.Equal(w.PrivKey.Serialize(), x.key) {
+							rep.Violate("C06:roundtrip", "DecodeWIF(String(NewWIF(key, net, flag))) != (key, net, flag)",
+								map[string]interface{}{"op": "decode", "string": s, "family": "two valid strings with equal checksum bytes, decoded one after the other",
+									"key": vh.Hex(x.key), "other_key": vh.Hex(order[0].key), "checksum": fmt.Sprintf("%08x", tag)})
+						}
+					}
+				}
+			}
+			seen[tag] = e
+		}
+		rep.Extra["equal_checksum_pairs"] = found
+	}
+
+	// public points with a SHORT coordinate (two or more leading zero bytes; one in 2^15 keys): consecutive scalars
+	// walked with the independent reference (one point addition each) until some are met, plus the scalars
+	// (n+1)/2 and (n-1)/2 whose x coordinate has 166 bits
+	{
+		g := pt{x: genX, y: genY}
+		acc := pt{inf: true}
+		shortX, shortY := 0, 0
+		limit := cfg.Scale(70000, 400000)
+		for k := 1; k <= limit && (shortX < 2 || shortY < 2); k++ {
+			acc = padd(acc, g)
+			sx, sy := acc.x.BitLen() <= 240, acc.y.BitLen() <= 240
+			if !sx && !sy {
+				continue
+			}
+			if sx {
+				shortX++
+			}
+			if sy {
+				shortY++
+			}
+			key := pad32(big.NewInt(int64(k)).Bytes())
+			for _, compress := range []bool{true, false} {
+				encodeKey(key, nets[k%len(nets)], compress, !cfg.Search)
+			}
+		}
+		rep.Extra["short_coordinate_scalars"] = shortX + shortY
+		half := new(big.Int).Rsh(new(big.Int).Add(orderN, big.NewInt(1)), 1)
+		for _, d := range []*big.Int{half, new(big.Int).Sub(half, big.NewInt(1)), new(big.Int).Sub(orderN, big.NewInt(2))} {
+			for _, compress := range []bool{true, false} {
+				encodeKey(pad32(d.Bytes()), nets[0], compress, !cfg.Search)
+			}
+		}
+	}
+
+	// keys solved for so that the digit string of the WIF has a run of zero digits ('1') in its interior
+	r = rng.Fork("zero-digits")
+	for i, run := range [][2]int{{10, 20}, {20, 30}, {30, 40}, {10, 40}, {9, 19}, {21, 31}} {
+		net := nets[i%len(nets)]
+		if body := al.ZeroDigitRunBody(r, net.PrivateKeyID, 33, run[0], run[1]); body != nil {
+			encodeKey(body[1:], net, false, !cfg.Search && i < 3)
+		}
+	}
+
 	decodeStr("", "edge", !cfg.Search)
 	decodeStr("1", "edge", !cfg.Search)
 	decodeStr("5HueCGU8rMjxEXxiPuD5BDku4MkFqeZyd4dZ1jvhTVqvbTLvyTJ", "known", !cfg.Search)    // bitcoin wiki vector
